@@ -44,6 +44,9 @@ class GenA:
         self.prefixes = []  # (ref, mprefix)
         self.texts = []     # (ref, kind)
         self.pairs = []     # (ref, (nf, nf))
+        self.blobs = []     # (ref, kind, nf)
+        self.token_ref = {}  # synthetic base-unit token -> ref of its defining op
+        self.restarted = False
         self.shipped_units = sorted(self.model.unit_names)
         self.shipped_prefixes = sorted(self.model.prefix_names)
         self.shipped_dims = sorted(self.model.dims)
@@ -136,6 +139,7 @@ class GenA:
         name = self.fresh_name()
         ref = self.emit({"op": "define_unit", "dim": dref, "name": name, "symbol": name})
         nf = self.model.define_unit(name, name, md)
+        self.token_ref[name] = ref
         self.units.append((ref, nf))
 
     def g_derive(self):
@@ -383,6 +387,7 @@ class GenA:
             self.emit(op)
             return
         ref = self.emit(op)
+        self.token_ref[name] = ref
         self.units.append((ref, self.model.define_unit(name, symbol, md)))
 
     def _fresh_compound(self):
@@ -522,6 +527,193 @@ class GenA:
         r = self.emit(op)
         self.units.append((r, self.model.define_unit(name, symbol, md)))
 
+
+    # ------------------------------------------------------------ C02 laws
+    def _u(self, op, nf):
+        if nf is None or not self.size_ok(nf):
+            return None
+        ref = self.emit(op)
+        self.units.append((ref, nf))
+        return ref
+
+    def g_law(self):
+        """Both sides of one group law, as separate evaluations (same normal form,
+        so the identity table must see one object)."""
+        rng = self.rng
+        (x, mx), (y, my), (z, mz) = self.any_unit(True), self.any_unit(True), self.any_unit(True)
+        law = rng.choice(["pow_add", "pow_mul", "root", "root", "div", "inv", "comm", "assoc", "neutral",
+                          "prefix_pow", "prefix_root", "dim_laws", "prefixed_unit", "prefix_only"])
+        a, b = self.small_int(-3, 3), self.small_int(-3, 3)
+        if law == "pow_add":
+            r1 = self._u({"op": "u_pow", "a": x, "n": a}, M.u_pow(mx, a))
+            r2 = self._u({"op": "u_pow", "a": x, "n": b}, M.u_pow(mx, b))
+            if r1 and r2:
+                self._u({"op": "u_mul", "a": r1, "b": r2}, M.u_pow(mx, a + b))
+                self._u({"op": "u_pow", "a": x, "n": a + b}, M.u_pow(mx, a + b))
+        elif law == "pow_mul":
+            r1 = self._u({"op": "u_pow", "a": x, "n": a}, M.u_pow(mx, a))
+            if r1:
+                self._u({"op": "u_pow", "a": r1, "n": b}, M.u_pow(mx, a * b))
+                self._u({"op": "u_pow", "a": x, "n": a * b}, M.u_pow(mx, a * b))
+        elif law == "root":
+            n = rng.choice([2, 3, -2, -3, 4, -1, 1, 5])
+            r1 = self._u({"op": "u_pow", "a": x, "n": n}, M.u_pow(mx, n))
+            if r1:
+                self._u({"op": "u_root", "a": r1, "n": n}, mx)
+        elif law == "div":
+            r1 = self._u({"op": "u_pow", "a": y, "n": -1}, M.u_pow(my, -1))
+            self._u({"op": "u_div", "a": x, "b": y}, M.u_div(mx, my))
+            if r1:
+                self._u({"op": "u_mul", "a": x, "b": r1}, M.u_div(mx, my))
+        elif law == "inv":
+            r1 = self._u({"op": "u_pow", "a": x, "n": -1}, M.u_pow(mx, -1))
+            if r1:
+                self._u({"op": "u_mul", "a": x, "b": r1}, M.u_mul(mx, M.u_pow(mx, -1)))
+                self._u({"op": "u_div", "a": x, "b": x}, M.u_div(mx, mx))
+        elif law == "comm":
+            self._u({"op": "u_mul", "a": x, "b": y}, M.u_mul(mx, my))
+            self._u({"op": "u_mul", "a": y, "b": x}, M.u_mul(mx, my))
+        elif law == "assoc":
+            r1 = self._u({"op": "u_mul", "a": x, "b": y}, M.u_mul(mx, my))
+            r2 = self._u({"op": "u_mul", "a": y, "b": z}, M.u_mul(my, mz))
+            full = M.u_mul(M.u_mul(mx, my), mz)
+            if r1:
+                self._u({"op": "u_mul", "a": r1, "b": z}, full)
+            if r2:
+                self._u({"op": "u_mul", "a": x, "b": r2}, full)
+        elif law == "neutral":
+            one = ["u", "one"]
+            self._u({"op": "u_mul", "a": x, "b": one}, mx)
+            self._u({"op": "u_mul", "a": one, "b": x}, mx)
+            self._u({"op": "u_div", "a": x, "b": one}, mx)
+            self._u({"op": "p_mul_u", "p": ["p", ""], "u": x}, mx)
+            self._u({"op": "u_pow", "a": x, "n": 1}, mx)
+            self._u({"op": "u_pow", "a": x, "n": 0}, M.ONE)
+        elif law == "prefix_only":
+            # dimensionless units that carry only a prefix: (p*x)/x, p*One; then used further
+            p, mp = self.any_prefix()
+            po = (mp, ())
+            r1 = self._u({"op": "p_mul_u", "p": p, "u": x}, M.u_with_prefix(mp, mx))
+            r2 = self._u({"op": "u_div", "a": r1, "b": x}, po) if r1 else None
+            r3 = self._u({"op": "p_mul_u", "p": p, "u": ["u", "one"]}, po)
+            for r in (r2, r3):
+                if r:
+                    self._u({"op": "u_mul", "a": r, "b": y}, M.u_with_prefix(mp, my))
+                    n = rng.choice([2, 3, -2])
+                    rr = self._u({"op": "u_pow", "a": r, "n": n}, M.u_pow(po, n))
+                    if rr:
+                        self._u({"op": "u_root", "a": rr, "n": n}, po)
+            self._u({"op": "p_mul_u", "p": p, "u": y}, M.u_with_prefix(mp, my))
+        elif law == "prefixed_unit":
+            (p, mp), (q, mq) = self.any_prefix(), self.any_prefix()
+            r1 = self._u({"op": "p_mul_u", "p": p, "u": x}, M.u_with_prefix(mp, mx))
+            r2 = self._u({"op": "p_mul_u", "p": q, "u": y}, M.u_with_prefix(mq, my))
+            if r1 and r2:
+                self._u({"op": "u_mul", "a": r1, "b": r2}, M.u_mul(M.u_with_prefix(mp, mx), M.u_with_prefix(mq, my)))
+                self._u({"op": "u_div", "a": r1, "b": r2}, M.u_div(M.u_with_prefix(mp, mx), M.u_with_prefix(mq, my)))
+                self._u({"op": "u_pow", "a": r1, "n": a}, M.u_pow(M.u_with_prefix(mp, mx), a))
+        elif law in ("prefix_pow", "prefix_root"):
+            (p, mp), (q, mq) = self.any_prefix(), self.any_prefix()
+            if law == "prefix_pow":
+                r1 = self.emit({"op": "p_pow", "a": p, "n": a})
+                r2 = self.emit({"op": "p_pow", "a": p, "n": b})
+                r3 = self.emit({"op": "p_bin", "f": "*", "a": r1, "b": r2})
+                r4 = self.emit({"op": "p_pow", "a": p, "n": a + b})
+                self.prefixes += [(r1, M.p_pow(mp, a)), (r2, M.p_pow(mp, b)), (r3, M.p_pow(mp, a + b)),
+                                  (r4, M.p_pow(mp, a + b))]
+                r5 = self.emit({"op": "p_bin", "f": "*", "a": p, "b": q})
+                r6 = self.emit({"op": "p_bin", "f": "*", "a": q, "b": p})
+                r7 = self.emit({"op": "p_bin", "f": "/", "a": r5, "b": q})
+                self.prefixes += [(r5, M.p_mul(mp, mq)), (r6, M.p_mul(mp, mq)), (r7, mp)]
+            else:
+                n = rng.choice([2, 3, -2, 4, -1])
+                r1 = self.emit({"op": "p_pow", "a": p, "n": n})
+                r2 = self.emit({"op": "p_root", "a": r1, "n": n})
+                self.prefixes += [(r1, M.p_pow(mp, n)), (r2, mp)]
+        elif law == "dim_laws":
+            (d, md), (e, me) = self.any_dim(), self.any_dim()
+            n = rng.choice([2, 3, -2, -1])
+            r1 = self.emit({"op": "d_pow", "a": d, "n": n})
+            r2 = self.emit({"op": "d_root", "a": r1, "n": n})
+            r3 = self.emit({"op": "d_bin", "f": "*", "a": d, "b": e})
+            r4 = self.emit({"op": "d_bin", "f": "*", "a": e, "b": d})
+            r5 = self.emit({"op": "d_bin", "f": "/", "a": r3, "b": e})
+            r6 = self.emit({"op": "d_pow", "a": e, "n": -1})
+            r7 = self.emit({"op": "d_bin", "f": "*", "a": d, "b": r6})
+            r8 = self.emit({"op": "d_bin", "f": "/", "a": d, "b": e})
+            self.dims += [(r1, M.d_pow(md, n)), (r2, md), (r3, M.d_mul(md, me)), (r4, M.d_mul(md, me)),
+                          (r5, md), (r6, M.d_pow(me, -1)), (r7, M.d_div(md, me)), (r8, M.d_div(md, me))]
+
+    def build_unit(self, nf, order_seed=None):
+        """Ops that evaluate an expression with normal form nf from leaves/definitions."""
+        items = list(nf[1])
+        self.rng.shuffle(items)
+        ref = None
+        for t, e in items:
+            r = self.token_ref.get(t) or ["u", t]
+            if e != 1:
+                r = self.emit({"op": "u_pow", "a": r, "n": e})
+            ref = r if ref is None else self.emit({"op": "u_mul", "a": ref, "b": r})
+        if ref is None:
+            ref = ["u", "one"]
+        for b, e in nf[0]:
+            if e.denominator != 1:
+                return None
+            name = [n for n, v in sorted(self.model.prefix_names.items()) if v == ((b, e),)]
+            if name:
+                p = ["p", name[0]]
+            else:
+                p = self.emit({"op": "prefix_new", "base": b, "exp": int(e)})
+            ref = self.emit({"op": "p_mul_u", "p": p, "u": ref})
+        self.units.append((ref, nf))
+        return ref
+
+    # ------------------------------------------------- serialization / restart
+    def g_dump(self):
+        codec = self.rng.choice(["pickle2", "pickle3", "pickle4", "pickle5", "json", "json"])
+        if self.qtys and self.rng.random() < 0.35:
+            x, mx = self.rng.choice(self.qtys)
+            if self.rng.random() < 0.2:
+                codec = "composite"
+            ref = self.emit({"op": "dump", "x": x, "kind": "qty", "codec": codec})
+            self.blobs.append((ref, "qty", mx))
+        else:
+            x, mx = self.any_unit()
+            ref = self.emit({"op": "dump", "x": x, "kind": "unit", "codec": codec})
+            self.blobs.append((ref, "unit", mx))
+
+    def g_load(self):
+        if not self.blobs:
+            return self.g_dump()
+        b, kind, mx = self.rng.choice(self.blobs)
+        ref = self.emit({"op": "load", "blob": b})
+        if kind == "unit":
+            self.units.append((ref, mx))
+        else:
+            self.qtys.append((ref, mx))
+
+    def g_restart(self):
+        if self.restarted or len(self.blobs) < 1:
+            return self.g_dump()
+        self.restarted = True
+        self.emit({"op": "restart"})
+        keep_kinds = {"define_unit", "dim_unit", "derive", "alias", "scale"}
+        kept = {o["id"] for o in self.ops if o["op"] in keep_kinds and not o.get("fault") and "inject" not in o}
+        self.units = [(r, m) for r, m in self.units if r[0] != "r" or r[1] in kept]
+        self.qtys, self.texts, self.pairs, self.dims = [], [], [], [d for d in self.dims if d[0][0] != "r"]
+        self.prefixes = [p for p in self.prefixes if p[0][0] != "r"]
+        # decode first (the receiver has not built these values yet), then rebuild the
+        # same expressions in this world: both must be one object
+        blobs = list(self.blobs)
+        self.rng.shuffle(blobs)
+        for b, kind, mx in blobs[:6]:
+            ref = self.emit({"op": "load", "blob": b})
+            if kind == "unit":
+                self.units.append((ref, mx))
+                self.build_unit(mx)
+            else:
+                self.qtys.append((ref, mx))
+
     # --------------------------------------------------------- assembly
     WEIGHTS = {
         "C01": {
@@ -530,6 +722,12 @@ class GenA:
             "q_new": 5, "q_bin": 5, "q_unit": 3, "q_pow": 2, "q_root": 2, "quantify": 3,
             "unprefixed": 2, "q_unit_of": 2, "convert": 5, "cmp": 3, "roundtrip": 4,
             "evict": 4, "import": 1, "d_ops": 2, "p_ops": 2,
+        },
+        "C02": {
+            "law": 22, "define_unit": 4, "derive": 3, "u_mul": 8, "u_pow": 5, "u_root": 5, "pow_then_root": 4,
+            "p_mul_u": 5, "as_ratio": 3, "render": 2, "parse": 2, "q_new": 2, "q_bin": 3, "q_unit": 2,
+            "q_pow": 2, "quantify": 2, "unprefixed": 1, "q_unit_of": 2, "convert": 1, "roundtrip": 3,
+            "evict": 4, "import": 1, "d_ops": 3, "p_ops": 4, "dump": 2, "load": 2, "restart": 1,
         },
         "C19": {
             "decl_unit": 10, "decl_derive": 10, "decl_alias": 10, "decl_prefix": 8, "decl_dim": 5,
